@@ -25,6 +25,7 @@ theorem Val.ind : (v : Val) → P v
   | .str _ => hleaf _ rfl | .bytes _ => hleaf _ rfl | .null => hleaf _ rfl | .ts _ _ => hleaf _ rfl
   | .dur _ => hleaf _ rfl | .type _ => hleaf _ rfl | .nfloat _ => hleaf _ rfl | .nstr _ => hleaf _ rfl
   | .nbytes _ => hleaf _ rfl | .ntimedelta _ => hleaf _ rfl | .nbool _ => hleaf _ rfl | .nint _ => hleaf _ rfl
+  | .ndatetime _ _ => hleaf _ rfl
 theorem Val.indList : (xs : List Val) → ∀ x ∈ xs, P x
   | [], _, h => by cases h
   | y :: ys, x, h => by
@@ -375,5 +376,327 @@ theorem rel_spec (a : Val) : ElemSpec a := by
       | exact ⟨by rw [show pyRel cmpSpecs .eq _ _ = .ok (RelOp.holds .eq (cmpInt _ _)) from rfl, holds_eq_cmpInt]; rfl,
                by rw [show pyRel cmpSpecs .ne _ _ = .ok (RelOp.holds .ne (cmpInt _ _)) from rfl, holds_ne, holds_eq_cmpInt]; rfl⟩
 
+
+
+/-! ### `eqSpec` is symmetric and reflexive on well-formed values -/
+
+
+theorem subset_of_nodup_length_le {α} [DecidableEq α] : (l1 l2 : List α) → l1.Nodup → l1 ⊆ l2 → l2.length ≤ l1.length → l2 ⊆ l1
+  | [], l2, _, _, hlen => by
+      have : l2 = [] := List.eq_nil_of_length_eq_zero (by simpa using hlen)
+      simp [this]
+  | a :: t, l2, hn, hsub, hlen => by
+      have hn' := List.nodup_cons.mp hn
+      have ha : a ∈ l2 := hsub (List.mem_cons_self ..)
+      have hsub' : t ⊆ l2.erase a := by
+        intro x hx
+        have hxa : x ≠ a := fun h => hn'.1 (h ▸ hx)
+        exact (List.mem_erase_of_ne hxa).mpr (hsub (List.mem_cons_of_mem _ hx))
+      have hlen' : (l2.erase a).length ≤ t.length := by
+        rw [List.length_erase_of_mem ha]; simp at hlen; omega
+      have ih := subset_of_nodup_length_le t (l2.erase a) hn'.2 hsub' hlen'
+      intro x hx
+      by_cases hxa : x = a
+      · simp [hxa]
+      · exact List.mem_cons_of_mem _ (ih ((List.mem_erase_of_ne hxa).mpr hx))
+
+def keysOf (m : List (Key × Val)) : List Key := m.map (·.1)
+
+theorem keysNodup_iff : (m : List (Key × Val)) → (keysNodup m = true ↔ (keysOf m).Nodup)
+  | [] => by simp [keysNodup, keysOf]
+  | (k, v) :: rest => by
+      simp only [keysNodup, keysOf, List.map_cons, List.nodup_cons, Bool.and_eq_true, Bool.not_eq_true', List.any_eq_false]
+      rw [keysNodup_iff rest]
+      simp [keysOf]
+      intro _
+      constructor
+      · intro h x hx; exact h k x hx rfl
+      · intro h a b hab hak; subst hak; exact h b hab
+
+theorem find?_mem : (m : List (Key × Val)) → (k : Key) → (w : Val) → find? k m = some w → (k, w) ∈ m
+  | [], _, _, h => by simp [find?] at h
+  | (k', v) :: rest, k, w, h => by
+      simp only [find?] at h
+      by_cases hk : k' = k
+      · simp [hk] at h; simp [hk, h]
+      · simp [hk] at h; exact List.mem_cons_of_mem _ (find?_mem rest k w h)
+
+theorem find?_of_mem : (m : List (Key × Val)) → (keysOf m).Nodup → (k : Key) → (w : Val) → (k, w) ∈ m → find? k m = some w
+  | [], _, _, _, h => by cases h
+  | (k', v) :: rest, hn, k, w, h => by
+      simp only [keysOf, List.map_cons, List.nodup_cons] at hn
+      simp only [find?]
+      rcases List.mem_cons.mp h with h | h
+      · cases h; simp
+      · have : k' ≠ k := by
+          intro hk; apply hn.1; rw [hk]; exact List.mem_map.mpr ⟨(k, w), h, rfl⟩
+        simp [this]; exact find?_of_mem rest hn.2 k w h
+
+theorem find?_isSome_iff (m : List (Key × Val)) (k : Key) : (∃ w, find? k m = some w) ↔ k ∈ keysOf m := by
+  induction m with
+  | nil => simp [find?, keysOf]
+  | cons kv rest ih =>
+    obtain ⟨k', v⟩ := kv
+    simp only [find?, keysOf, List.map_cons, List.mem_cons]
+    by_cases hk : k' = k
+    · simp [hk]
+    · simp only [hk, if_false]
+      rw [ih]
+      constructor
+      · intro h; exact Or.inr h
+      · intro h; rcases h with h | h
+        · exact absurd h.symm hk
+        · exact h
+
+theorem eqSpecMap_iff : (m1 m2 : List (Key × Val)) →
+    (eqSpecMap m1 m2 = true ↔ ∀ kv ∈ m1, ∃ w, find? kv.1 m2 = some w ∧ eqSpec kv.2 w = true)
+  | [], _ => by simp [eqSpecMap]
+  | (k, v) :: rest, m2 => by
+      simp only [eqSpecMap, Bool.and_eq_true, List.mem_cons, forall_eq_or_imp, eqSpecMap_iff rest m2]
+      constructor
+      · rintro ⟨h1, h2⟩
+        refine ⟨?_, h2⟩
+        cases hf : find? k m2 <;> simp_all
+      · rintro ⟨⟨w, hw, he⟩, h2⟩
+        exact ⟨by simp [hw, he], h2⟩
+
+theorem wfList_mem : (xs : List Val) → wfList xs = true → ∀ x ∈ xs, x.wf = true
+  | [], _, _, h => by cases h
+  | y :: ys, hw, x, h => by
+      simp only [wfList, Bool.and_eq_true] at hw
+      rcases List.mem_cons.mp h with h | h
+      · exact h ▸ hw.1
+      · exact wfList_mem ys hw.2 x h
+theorem wfMap_mem : (m : List (Key × Val)) → wfMap m = true → ∀ kv ∈ m, kv.2.wf = true
+  | [], _, _, h => by cases h
+  | (k, v) :: rest, hw, kv, h => by
+      simp only [wfMap, Bool.and_eq_true] at hw
+      rcases List.mem_cons.mp h with h | h
+      · exact h ▸ hw.1
+      · exact wfMap_mem rest hw.2 kv h
+
+theorem eqSpecList_symm : (xs ys : List Val) → (∀ x ∈ xs, ∀ y, eqSpec x y = eqSpec y x) → eqSpecList xs ys = eqSpecList ys xs
+  | [], [], _ => rfl
+  | [], _ :: _, _ => rfl
+  | _ :: _, [], _ => rfl
+  | x :: xs, y :: ys, ih => by
+      simp only [eqSpecList]
+      rw [ih x (List.mem_cons_self ..) y, eqSpecList_symm xs ys (fun z hz => ih z (List.mem_cons_of_mem _ hz))]
+
+/-- one direction of map symmetry; `hsym` is symmetry on the values of either side -/
+theorem eqSpecMap_swap (m1 m2 : List (Key × Val)) (hn1 : (keysOf m1).Nodup) (hn2 : (keysOf m2).Nodup)
+    (hlen : m1.length = m2.length)
+    (hsym : ∀ kv ∈ m1, ∀ kw ∈ m2, eqSpec kv.2 kw.2 = true → eqSpec kw.2 kv.2 = true)
+    (h : eqSpecMap m1 m2 = true) : eqSpecMap m2 m1 = true := by
+  rw [eqSpecMap_iff] at h ⊢
+  have hsub : keysOf m1 ⊆ keysOf m2 := by
+    intro k hk
+    obtain ⟨kv, hkv, rfl⟩ := List.mem_map.mp hk
+    obtain ⟨w, hw, _⟩ := h kv hkv
+    exact (find?_isSome_iff m2 kv.1).mp ⟨w, hw⟩
+  have hsup : keysOf m2 ⊆ keysOf m1 :=
+    subset_of_nodup_length_le _ _ hn1 hsub (by simp [keysOf, hlen])
+  intro kw hkw
+  have hk : kw.1 ∈ keysOf m1 := hsup (List.mem_map.mpr ⟨kw, hkw, rfl⟩)
+  obtain ⟨v, hv⟩ := (find?_isSome_iff m1 kw.1).mpr hk
+  have hmem := find?_mem m1 kw.1 v hv
+  obtain ⟨w', hw', he⟩ := h (kw.1, v) hmem
+  have : find? kw.1 m2 = some kw.2 := find?_of_mem m2 hn2 kw.1 kw.2 (by simpa using hkw)
+  rw [this] at hw'
+  cases hw'
+  exact ⟨v, hv, hsym (kw.1, v) hmem kw hkw he⟩
+
+def SymmAt (a : Val) : Prop := ∀ b, a.wf = true → b.wf = true → eqSpec a b = eqSpec b a
+
+theorem wf_map_parts (m : List (Key × Val)) (h : (Val.map m).wf = true) : (keysOf m).Nodup ∧ wfMap m = true := by
+  simp only [Val.wf, Bool.and_eq_true] at h
+  exact ⟨(keysNodup_iff m).mp h.1.2, h.2⟩
+
+theorem eqSpec_clsne (a b : Val) (h : clsOf a ≠ clsOf b) : eqSpec a b = false := by
+  unfold eqSpec
+  split <;> simp_all [clsOf]
+
+theorem eqSpec_dbl_symm (d1 d2 : Dbl) : eqSpec (.dbl d1) (.dbl d2) = eqSpec (.dbl d2) (.dbl d1) := by
+  cases d1 <;> cases d2 <;> simp [eqSpec, eq_comm]
+
+theorem eqSpec_symm (a : Val) : SymmAt a := by
+  refine Val.ind ?_ ?_ ?_ ?_ a
+  · intro xs ih b ha hb
+    by_cases hc : clsOf (.list xs) = clsOf b
+    · cases b <;> simp [clsOf] at hc
+      rename_i ys
+      simp only [eqSpec]
+      have hxs := wfList_mem xs (by simpa [Val.wf] using ha)
+      have hys := wfList_mem ys (by simpa [Val.wf] using hb)
+      by_cases hl : xs.length = ys.length
+      · have hz : ∀ (xs ys : List Val), (∀ x ∈ xs, SymmAt x) → (∀ x ∈ xs, x.wf = true) → (∀ y ∈ ys, y.wf = true) →
+            eqSpecList xs ys = eqSpecList ys xs := by
+          intro xs
+          induction xs with
+          | nil => intro ys _ _ _; cases ys <;> rfl
+          | cons x xs ihx =>
+            intro ys ih hxs hys
+            cases ys with
+            | nil => rfl
+            | cons y ys =>
+              simp only [eqSpecList]
+              rw [ih x (List.mem_cons_self ..) y (hxs x (List.mem_cons_self ..)) (hys y (List.mem_cons_self ..)),
+                ihx ys (fun z hz => ih z (List.mem_cons_of_mem _ hz)) (fun z hz => hxs z (List.mem_cons_of_mem _ hz))
+                  (fun z hz => hys z (List.mem_cons_of_mem _ hz))]
+        simp [hl, hz xs ys ih hxs hys]
+      · have hl' : ¬ ys.length = xs.length := fun h => hl h.symm
+        simp [beq_false_of_ne hl, beq_false_of_ne hl']
+    · rw [eqSpec_clsne _ _ hc, eqSpec_clsne _ _ (Ne.symm hc)]
+  · intro m1 ih b ha hb
+    by_cases hc : clsOf (.map m1) = clsOf b
+    · cases b <;> simp [clsOf] at hc
+      rename_i m2
+      simp only [eqSpec]
+      obtain ⟨hn1, hw1⟩ := wf_map_parts m1 ha
+      obtain ⟨hn2, hw2⟩ := wf_map_parts m2 hb
+      have hv1 := wfMap_mem m1 hw1
+      have hv2 := wfMap_mem m2 hw2
+      by_cases hl : m1.length = m2.length
+      · have d1 : eqSpecMap m1 m2 = true → eqSpecMap m2 m1 = true :=
+          eqSpecMap_swap m1 m2 hn1 hn2 hl (fun kv hkv kw hkw he => by
+            rw [← ih kv hkv kw.2 (hv1 kv hkv) (hv2 kw hkw)]; exact he)
+        have d2 : eqSpecMap m2 m1 = true → eqSpecMap m1 m2 = true :=
+          eqSpecMap_swap m2 m1 hn2 hn1 hl.symm (fun kw hkw kv hkv he => by
+            rw [ih kv hkv kw.2 (hv1 kv hkv) (hv2 kw hkw)]; exact he)
+        have : eqSpecMap m1 m2 = eqSpecMap m2 m1 := by
+          cases h1 : eqSpecMap m1 m2 <;> cases h2 : eqSpecMap m2 m1 <;> simp_all
+        simp [hl, this]
+      · have hl' : ¬ m2.length = m1.length := fun h => hl h.symm
+        simp [beq_false_of_ne hl, beq_false_of_ne hl']
+    · rw [eqSpec_clsne _ _ hc, eqSpec_clsne _ _ (Ne.symm hc)]
+  · intro xs _ b ha _
+    simp [Val.wf] at ha
+  · intro v hleaf b _ _
+    by_cases hc : clsOf v = clsOf b
+    · cases v <;> cases b <;> simp [clsOf] at hc <;>
+        first | (simp [eqSpec, eq_comm]; done) | exact eqSpec_dbl_symm _ _ | (simp [Val.isLeaf] at hleaf; done)
+    · rw [eqSpec_clsne _ _ hc, eqSpec_clsne _ _ (Ne.symm hc)]
+
+theorem plainList_mem : (xs : List Val) → plainList xs = true → ∀ x ∈ xs, x.plain = true
+  | [], _, _, h => by cases h
+  | y :: ys, hw, x, h => by
+      simp only [plainList, Bool.and_eq_true] at hw
+      rcases List.mem_cons.mp h with h | h
+      · exact h ▸ hw.1
+      · exact plainList_mem ys hw.2 x h
+theorem plainMap_mem : (m : List (Key × Val)) → plainMap m = true → ∀ kv ∈ m, kv.2.plain = true
+  | [], _, _, h => by cases h
+  | (k, v) :: rest, hw, kv, h => by
+      simp only [plainMap, Bool.and_eq_true] at hw
+      rcases List.mem_cons.mp h with h | h
+      · exact h ▸ hw.1
+      · exact plainMap_mem rest hw.2 kv h
+
+theorem sameTypeList_self : (xs : List Val) → (∀ x ∈ xs, sameType x x = true) → sameTypeList xs xs = true
+  | [], _ => rfl
+  | x :: xs, h => by
+      simp only [sameTypeList, Bool.and_eq_true]
+      exact ⟨h x (List.mem_cons_self ..), sameTypeList_self xs (fun z hz => h z (List.mem_cons_of_mem _ hz))⟩
+theorem eqSpecList_self : (xs : List Val) → (∀ x ∈ xs, eqSpec x x = true) → eqSpecList xs xs = true
+  | [], _ => rfl
+  | x :: xs, h => by
+      simp only [eqSpecList, Bool.and_eq_true]
+      exact ⟨h x (List.mem_cons_self ..), eqSpecList_self xs (fun z hz => h z (List.mem_cons_of_mem _ hz))⟩
+theorem sameTypeMap_sub (m : List (Key × Val)) (hn : (keysOf m).Nodup) :
+    (sub : List (Key × Val)) → (∀ kv ∈ sub, kv ∈ m) → (∀ kv ∈ sub, sameType kv.2 kv.2 = true) → sameTypeMap sub m = true
+  | [], _, _ => rfl
+  | (k, v) :: rest, hsub, h => by
+      have hf := find?_of_mem m hn k v (hsub (k, v) (List.mem_cons_self ..))
+      simp only [sameTypeMap, hf, Bool.and_eq_true]
+      exact ⟨h (k, v) (List.mem_cons_self ..), sameTypeMap_sub m hn rest (fun z hz => hsub z (List.mem_cons_of_mem _ hz))
+        (fun z hz => h z (List.mem_cons_of_mem _ hz))⟩
+theorem eqSpecMap_sub (m : List (Key × Val)) (hn : (keysOf m).Nodup) :
+    (sub : List (Key × Val)) → (∀ kv ∈ sub, kv ∈ m) → (∀ kv ∈ sub, eqSpec kv.2 kv.2 = true) → eqSpecMap sub m = true
+  | [], _, _ => rfl
+  | (k, v) :: rest, hsub, h => by
+      have hf := find?_of_mem m hn k v (hsub (k, v) (List.mem_cons_self ..))
+      simp only [eqSpecMap, hf, Bool.and_eq_true]
+      exact ⟨h (k, v) (List.mem_cons_self ..), eqSpecMap_sub m hn rest (fun z hz => hsub z (List.mem_cons_of_mem _ hz))
+        (fun z hz => h z (List.mem_cons_of_mem _ hz))⟩
+
+def ReflAt (v : Val) : Prop := v.wf = true → (sameType v v = true ∧ (v.plain = true → eqSpec v v = true))
+
+theorem refl_spec (a : Val) : ReflAt a := by
+  refine Val.ind ?_ ?_ ?_ ?_ a
+  · intro xs ih hw
+    have hxs := wfList_mem xs (by simpa [Val.wf] using hw)
+    refine ⟨?_, fun hp => ?_⟩
+    · simp only [sameType]
+      exact sameTypeList_self xs (fun x hx => (ih x hx (hxs x hx)).1)
+    · have hps := plainList_mem xs (by simpa [Val.plain] using hp)
+      simp only [eqSpec, beq_self_eq_true, Bool.true_and]
+      exact eqSpecList_self xs (fun x hx => (ih x hx (hxs x hx)).2 (hps x hx))
+  · intro m ih hw
+    obtain ⟨hn, hwm⟩ := wf_map_parts m hw
+    have hv := wfMap_mem m hwm
+    refine ⟨?_, fun hp => ?_⟩
+    · have hst := sameTypeMap_sub m hn m (fun _ h => h) (fun kv hkv => (ih kv hkv (hv kv hkv)).1)
+      cases m with
+      | nil => rfl
+      | cons kv rest =>
+        obtain ⟨k, v⟩ := kv
+        simp only [Val.wf, Bool.and_eq_true] at hw
+        simp only [sameType, hw.1.1, hst, Bool.and_self]
+    · have hps := plainMap_mem m (by simpa [Val.plain] using hp)
+      simp only [eqSpec, beq_self_eq_true, Bool.true_and]
+      exact eqSpecMap_sub m hn m (fun _ h => h) (fun kv hkv => (ih kv hkv (hv kv hkv)).2 (hps kv hkv))
+  · intro xs _ hw
+    simp [Val.wf] at hw
+  · intro v hleaf hw
+    cases v <;> first
+      | (refine ⟨rfl, fun _ => ?_⟩; simp [eqSpec]; done)
+      | (simp [Val.isLeaf] at hleaf; done)
+      | (simp [Val.wf] at hw; done)
+      | skip
+    rename_i d
+    cases d
+    · exact ⟨rfl, fun hp => by simp [Val.plain] at hp⟩
+    · exact ⟨rfl, fun _ => by simp [eqSpec]⟩
+
+
+/-! ### ordered scalars -/
+
+theorem pyRel_ordered (op : RelOp) (a b : Val) (h : sameOrdered a b = true) :
+    pyRel cmpSpecs op a b = .ok (op.holds (ocmp a b)) := by
+  unfold sameOrdered at h
+  split at h <;> first | (cases op <;> rfl) | (simp at h)
+
+theorem ocmp_refl (a : Val) (h : a.ordered = true) : ocmp a a = .eq := by
+  unfold Val.ordered at h
+  split at h <;> first | (simp [ocmp, cmpInt_refl, cmpBool_refl, cmpSeq_refl]; done) | (simp at h)
+
+theorem ocmp_swap (a b : Val) (h : sameOrdered a b = true) : ocmp b a = (ocmp a b).swap := by
+  unfold sameOrdered at h
+  split at h <;> first | exact cmpInt_swap _ _ | exact cmpBool_swap _ _ | exact cmpSeq_swap _ _ | (simp at h)
+
+theorem sameOrdered_symm (a b : Val) (h : sameOrdered a b = true) : sameOrdered b a = true := by
+  unfold sameOrdered at h
+  split at h <;> first | rfl | (simp at h)
+
+theorem sameOrdered_trans (a b c : Val) (h1 : sameOrdered a b = true) (h2 : sameOrdered b c = true) : sameOrdered a c = true := by
+  unfold sameOrdered at h1
+  split at h1 <;> first | (simp at h1; done) | (unfold sameOrdered at h2; split at h2 <;> first | rfl | (simp at h2; done) | simp_all)
+
+theorem ocmp_eq_iff_eqSpec (a b : Val) (h : sameOrdered a b = true) : (ocmp a b = .eq) ↔ eqSpec a b = true := by
+  unfold sameOrdered at h
+  split at h <;> first
+    | (simp [ocmp, eqSpec, cmpInt_eq_iff, cmpBool_eq_iff, cmpSeq_eq_iff]; done)
+    | (simp at h)
+
+theorem ocmp_trans (a b c : Val) (h1 : sameOrdered a b = true) (h2 : sameOrdered b c = true)
+    (l1 : ocmp a b = .lt) (l2 : ocmp b c = .lt) : ocmp a c = .lt := by
+  unfold sameOrdered at h1
+  split at h1 <;> first
+    | (simp at h1; done)
+    | (unfold sameOrdered at h2
+       split at h2 <;> first
+        | (simp at h2; done)
+        | (simp only [ocmp] at *; first | exact cmpInt_trans _ _ _ l1 l2 | exact cmpBool_trans _ _ _ l1 l2 | exact cmpSeq_trans _ _ _ l1 l2)
+        | simp_all)
 
 end Cel
